@@ -57,16 +57,16 @@ theorem errbacks_append (a b : List Delivery) :
   simp [accepted, List.filterMap_cons, acceptedOf, Delivery.msg?]
 theorem accepted_cons_response (t : Nat) (m : Msg) (l : List (Nat × Delivery)) :
     accepted ((t, .response m) :: l) = (m.obs.map (fun v => (v, t))).toList ++ accepted l := by
-  cases h : m.obs <;> simp [accepted, List.filterMap_cons, acceptedOf, Delivery.msg?, h]
+  cases h : m.obs <;> simp [accepted, acceptedOf, Delivery.msg?, h]
 theorem accepted_cons_callback (t : Nat) (m : Msg) (l : List (Nat × Delivery)) :
     accepted ((t, .callback m) :: l) = (m.obs.map (fun v => (v, t))).toList ++ accepted l := by
-  cases h : m.obs <;> simp [accepted, List.filterMap_cons, acceptedOf, Delivery.msg?, h]
+  cases h : m.obs <;> simp [accepted, acceptedOf, Delivery.msg?, h]
 
 @[simp] theorem handedOver_nil : handedOver [] = [] := rfl
 @[simp] theorem handedOver_cons_response (m : Msg) (l : List Delivery) :
-    handedOver (.response m :: l) = m :: handedOver l := by simp [handedOver, List.filterMap_cons, Delivery.msg?]
+    handedOver (.response m :: l) = m :: handedOver l := by simp [handedOver, Delivery.msg?]
 @[simp] theorem handedOver_cons_callback (m : Msg) (l : List Delivery) :
-    handedOver (.callback m :: l) = m :: handedOver l := by simp [handedOver, List.filterMap_cons, Delivery.msg?]
+    handedOver (.callback m :: l) = m :: handedOver l := by simp [handedOver, Delivery.msg?]
 @[simp] theorem handedOver_cons_errback (k : ErrKind) (l : List Delivery) :
     handedOver (.errback k :: l) = handedOver l := by simp [handedOver, List.filterMap_cons, Delivery.msg?]
 @[simp] theorem handedOver_cons_stop (l : List Delivery) :
@@ -80,7 +80,7 @@ theorem accepted_cons_callback (t : Nat) (m : Msg) (l : List (Nat × Delivery)) 
 @[simp] theorem errbacks_cons_callback (m : Msg) (l : List Delivery) :
     errbacks (.callback m :: l) = errbacks l := by simp [errbacks, List.filterMap_cons, Delivery.err?]
 @[simp] theorem errbacks_cons_errback (k : ErrKind) (l : List Delivery) :
-    errbacks (.errback k :: l) = k :: errbacks l := by simp [errbacks, List.filterMap_cons, Delivery.err?]
+    errbacks (.errback k :: l) = k :: errbacks l := by simp [errbacks, Delivery.err?]
 @[simp] theorem errbacks_cons_stop (l : List Delivery) :
     errbacks (.stopInterest :: l) = errbacks l := by simp [errbacks, List.filterMap_cons, Delivery.err?]
 @[simp] theorem errbacks_cons_responseExc (k : Nat) (l : List Delivery) :
